@@ -69,8 +69,9 @@ def run_replay(path):
     return json.loads(last[-1][7:])
 
 
-def check(prop, tier, seed, only=None, jobs=None, budget=None):
+def check(prop, tier, seed, only=None, jobs=None, budget=None, max_wall=None):
     t0 = time.time()
+    aborted = None
     modname = "harness." + prop.lower()
     mod = importlib.import_module(modname)
     insts = mod.instances(tier)
@@ -89,12 +90,23 @@ def check(prop, tier, seed, only=None, jobs=None, budget=None):
         results = [_run_one(w) for w in work]
     else:
         with ctx.Pool(jobs, initializer=_worker_init, maxtasksperchild=getattr(mod, "TASKS_PER_CHILD", None)) as pool:
-            for r in pool.imap_unordered(_run_one, work, chunksize=1):
-                results.append(r)
+            it = pool.imap_unordered(_run_one, work, chunksize=1)
+            while True:
+                try:
+                    left = None if not max_wall else max(1, max_wall - (time.time() - t0))
+                    results.append(it.next(left))
+                except StopIteration:
+                    break
+                except mp.TimeoutError:
+                    pool.terminate()
+                    aborted = "global wall limit of %ss reached with %d of %d instances finished" % (max_wall, len(results), len(work))
+                    break
     results.sort(key=lambda r: r["instance"])
     findings = load_findings()
     # --- triage failures: dedupe by (kind, signature), replay on un-instrumented rope
     inconclusive = []
+    if aborted:
+        inconclusive.append(aborted)
     for r in results:
         if r.get("harness_error"):
             inconclusive.append("harness error in %s: %s\n%s" % (r["instance"], r["harness_error"], r.get("tb", "")))
@@ -245,6 +257,7 @@ def main(argv=None):
     ap.add_argument("--only", action="append")
     ap.add_argument("--jobs", type=int)
     ap.add_argument("--budget", type=int)
+    ap.add_argument("--max-wall", type=int)
     a = ap.parse_args(argv)
     seed = int(os.environ.get("VERIF_SEED", "0") or 0)
     if a.what == "replay":
@@ -259,7 +272,7 @@ def main(argv=None):
         from vlib import selftest
 
         return selftest.main(a.rest)
-    return check(a.what.upper(), a.tier, seed, a.only, a.jobs, a.budget)
+    return check(a.what.upper(), a.tier, seed, a.only, a.jobs, a.budget, a.max_wall)
 
 
 if __name__ == "__main__":
